@@ -1,10 +1,188 @@
 // C16: parse_pdf_obj under a depth bound; reports the context's depth after the call.
+// Every case runs on a thread with a FIXED 1 MiB stack (what a worker thread of a user of the crate would
+// have), so that the verdict on wide / long inputs does not depend on the 8 MiB of the main thread: stack use
+// that grows with the WIDTH or LENGTH of the input (instead of the nesting bound d) overflows it and kills
+// the process (`crash:<rc>` in ./check).
 use parsley_rust::pcore::parsebuffer::{ParseBuffer, ParseBufferT};
-use parsley_rust::pdf_lib::pdf_obj::{parse_pdf_obj, PDFObjContext};
+use parsley_rust::pdf_lib::pdf_obj::{parse_pdf_obj, PDFObjContext, PDFObjT};
 use verif_harness::objfmt::obj_sexp;
 use verif_harness::*;
 
-fn run(line: &str) -> String {
+const STACK: usize = 1 << 20;
+const M: u64 = 1_000_000_007;
+
+// ---- digest of a value: must equal Dg / dgObj of lean/Driver/C16.lean
+struct Dg {
+    nodes: u64,
+    depth: u64,
+    width: u64,
+    chk:   u64,
+}
+fn kh(bs: &[u8]) -> u64 {
+    let mut h = (bs.len() as u64) % M;
+    for b in bs {
+        h = (h * 31 + *b as u64) % M;
+    }
+    h
+}
+fn scalar(c: u64) -> Dg { Dg { nodes: 1, depth: 1, width: 0, chk: c % M } }
+fn abs_mod(s: &str) -> u64 {
+    // |n| mod M of a decimal i128 literal
+    let v: i128 = s.trim().parse().unwrap();
+    (v.unsigned_abs() % (M as u128)) as u64
+}
+fn digest(o: &PDFObjT) -> Dg {
+    match o {
+        PDFObjT::Null(_) => scalar(1),
+        PDFObjT::Boolean(b) => scalar(if *b { 3 } else { 2 }),
+        PDFObjT::Integer(i) => scalar(5 + (i.int_val().unsigned_abs() % M)),
+        PDFObjT::Real(r) => {
+            // RealT's fields are private: its derived Debug prints `RealT(n, d)`
+            let s = format!("{:?}", r);
+            let inner = s.trim_start_matches("RealT(").trim_end_matches(')');
+            let parts: Vec<&str> = inner.split(", ").collect();
+            scalar(7 + abs_mod(parts[0]) + 3 * abs_mod(parts[1]))
+        },
+        PDFObjT::String(v) => scalar(11 + kh(v)),
+        PDFObjT::Name(n) => scalar(13 + kh(n.val())),
+        PDFObjT::Reference(r) => scalar(17 + (r.num() as u64 % M) + 3 * (r.gen() as u64 % M)),
+        PDFObjT::Comment(c) => scalar(19 + kh(c)),
+        PDFObjT::Array(a) => {
+            let (mut n, mut k, mut w, mut h, mut c) = (0u64, 0u64, 0u64, 23u64, 0u64);
+            for e in a.objs() {
+                let x = digest(e.val());
+                n += x.nodes;
+                k = k.max(x.depth);
+                w = w.max(x.width);
+                h = (h * 31 + x.chk) % M;
+                c += 1;
+            }
+            Dg { nodes: 1 + n, depth: 1 + k, width: w.max(c), chk: h }
+        },
+        PDFObjT::Dict(d) => {
+            let (mut n, mut k, mut w, mut h, mut c) = (0u64, 0u64, 0u64, 29u64, 0u64);
+            for (key, v) in d.map().iter() {
+                let x = digest(v.val());
+                n += x.nodes;
+                k = k.max(x.depth);
+                w = w.max(x.width);
+                h = (((h * 31 + kh(key.as_slice())) % M) * 31 + x.chk) % M;
+                c += 1;
+            }
+            Dg { nodes: 1 + n, depth: 1 + k, width: w.max(c), chk: h }
+        },
+        PDFObjT::Stream(_) => scalar(31),
+    }
+}
+
+// ---- the texts of the `wide` / `run` profiles: must equal wideLeaf / runLeaf / Big.bytes of lean/Driver/C16.lean
+fn rep(out: &mut Vec<u8>, n: usize, u: &[u8]) {
+    out.reserve(n * u.len());
+    for _ in 0 .. n {
+        out.extend_from_slice(u);
+    }
+}
+fn elem_text(e: &str) -> Option<&'static [u8]> {
+    Some(match e {
+        "int" => b"7",
+        "null" => b"null",
+        "bool" => b"true",
+        "real" => b"1.5",
+        "name" => b"/N",
+        "str" => b"(a)",
+        "hex" => b"<41>",
+        "ref" => b"1 0 R",
+        "earr" => b"[]",
+        "edict" => b"<<>>",
+        "arr1" => b"[7]",
+        "dict1" => b"<</K 7>>",
+        _ => return None,
+    })
+}
+fn wide_leaf(out: &mut Vec<u8>, n: usize, shape: &str, elem: &str, tail: &str) -> Option<()> {
+    let et = elem_text(elem)?;
+    match shape {
+        "arr" => {
+            out.push(b'[');
+            let mut u = et.to_vec();
+            u.push(b' ');
+            rep(out, n, &u);
+            if tail == "deep" {
+                out.extend_from_slice(b"[7] ");
+            }
+            out.push(b']');
+        },
+        "dict" => {
+            out.extend_from_slice(b"<<");
+            for j in 0 .. n {
+                out.extend_from_slice(format!("/K{:07} ", j % 10_000_000).as_bytes());
+                out.extend_from_slice(et);
+                out.push(b' ');
+            }
+            if tail == "deep" {
+                out.extend_from_slice(b"/Z [7] ");
+            }
+            out.extend_from_slice(b">>");
+        },
+        _ => return None,
+    }
+    Some(())
+}
+fn run_leaf(out: &mut Vec<u8>, n: usize, kind: &str) -> Option<()> {
+    match kind {
+        "str" => { out.push(b'('); rep(out, n, b"A"); out.push(b')') },
+        "strp" => { out.push(b'('); rep(out, n, b"("); rep(out, n, b")"); out.push(b')') },
+        "stre" => { out.push(b'('); rep(out, n, b"\\)"); out.push(b')') },
+        "name" => { out.push(b'/'); rep(out, n, b"A") },
+        "namex" => { out.push(b'/'); rep(out, n, b"#41") },
+        "hex" => { out.push(b'<'); rep(out, n, b"41"); out.push(b'>') },
+        "hexws" => { out.push(b'<'); rep(out, n, b"4 1\n"); out.push(b'>') },
+        "zeros" => { rep(out, n, b"0"); out.push(b'7') },
+        "nines" if n >= 40 => rep(out, n, b"9"),
+        "frac" if n >= 40 => { out.extend_from_slice(b"1."); rep(out, n, b"0"); out.push(b'5') },
+        "ws" => { rep(out, n, b" "); out.push(b'7') },
+        "crlf" => { rep(out, n, b"\r\n"); out.push(b'7') },
+        "cmt" => { rep(out, n, b"%c\n"); out.push(b'7') },
+        "cmt1" => { out.push(b'%'); rep(out, n, b"c"); out.extend_from_slice(b"\n7") },
+        "arrws" => { out.push(b'['); rep(out, n, b" "); out.push(b']') },
+        "arrcmt" => { out.push(b'['); rep(out, n, b"%\n"); out.push(b']') },
+        "dictws" => { out.extend_from_slice(b"<<"); rep(out, n, b"\n"); out.extend_from_slice(b">>") },
+        "kvws" if n >= 1 => { out.extend_from_slice(b"<</K"); rep(out, n, b" "); out.push(b'7'); rep(out, n, b" "); out.extend_from_slice(b">>") },
+        "refws" if n >= 1 => { out.push(b'1'); rep(out, n, b" "); out.push(b'0'); rep(out, n, b"\n"); out.push(b'R') },
+        "bigkey" => { out.extend_from_slice(b"<</"); rep(out, n, b"A"); out.extend_from_slice(b" 7>>") },
+        _ => return None,
+    }
+    Some(())
+}
+fn wrap_kind(j: usize, wrap: &str) -> usize {
+    match wrap {
+        "a" => 0,
+        "d" => 1,
+        _ => j % 3,
+    }
+}
+// `wide <d> <N> <shape> <elem> <p> <wrap> <tail>` / `run <d> <N> <kind> <p> <wrap>`
+fn big_bytes(w: &[&str]) -> Option<Vec<u8>> {
+    let n: usize = w[2].parse().ok()?;
+    let (p, wrap): (usize, &str) = if w[0] == "wide" {
+        if w.len() != 8 { return None }
+        (w[5].parse().ok()?, w[6])
+    } else {
+        if w.len() != 6 { return None }
+        (w[4].parse().ok()?, w[5])
+    };
+    let mut out = Vec::new();
+    for j in 0 .. p {
+        out.extend_from_slice(match wrap_kind(j, wrap) { 0 => &b"["[..], 1 => &b"<</K "[..], _ => &b"[1 "[..] });
+    }
+    if w[0] == "wide" { wide_leaf(&mut out, n, w[3], w[4], w[7])? } else { run_leaf(&mut out, n, w[3])? }
+    for j in (0 .. p).rev() {
+        out.extend_from_slice(match wrap_kind(j, wrap) { 0 => &b"]"[..], 1 => &b">>"[..], _ => &b" /N]"[..] });
+    }
+    Some(out)
+}
+
+fn run_case(line: &str) -> String {
     let w: Vec<&str> = line.split_whitespace().collect();
     if w.len() < 3 {
         return "bad-case".to_string()
@@ -13,8 +191,14 @@ fn run(line: &str) -> String {
         Ok(d) => d,
         Err(_) => return "bad-case".to_string(),
     };
+    let big = w[0] == "wide" || w[0] == "run";
     // `deep` cases carry a nesting profile instead of bytes: <n> copies of an opener
-    let bytes = if w[0] == "deep" {
+    let bytes = if big {
+        match big_bytes(&w) {
+            Some(b) => b,
+            None => return "bad-case".to_string(),
+        }
+    } else if w[0] == "deep" {
         let n: usize = w[2].parse().unwrap();
         let opener: &[u8] = if w.len() > 3 && w[3] == "dict" { b"<</K " } else { b"[" };
         let mut v = Vec::with_capacity(n * opener.len());
@@ -31,15 +215,28 @@ fn run(line: &str) -> String {
     let r = parse_pdf_obj(&mut ctxt, &mut pb);
     let after = ctxt.depth();
     match r {
-        Ok(v) => format!(
-            "ok {} {} {} {} {}",
-            v.start(),
-            v.end(),
-            pb.get_cursor(),
-            after as isize - before as isize,
-            obj_sexp(v.val())
-        ),
+        Ok(v) => {
+            let shown = if big {
+                let g = digest(v.val());
+                format!("dg n={} k={} w={} h={}", g.nodes, g.depth, g.width, g.chk)
+            } else {
+                obj_sexp(v.val())
+            };
+            format!("ok {} {} {} {} {}", v.start(), v.end(), pb.get_cursor(), after as isize - before as isize, shown)
+        },
         Err(e) => format!("err {} {}", errk(e.val()), after as isize - before as isize),
+    }
+}
+
+fn run(line: &str) -> String {
+    let line = line.to_string();
+    let h = std::thread::Builder::new()
+        .stack_size(STACK)
+        .spawn(move || run_case(&line))
+        .expect("spawn");
+    match h.join() {
+        Ok(s) => s,
+        Err(e) => std::panic::resume_unwind(e),
     }
 }
 
